@@ -167,6 +167,24 @@ func probesNested() []*m.Q {
 	return append(out, &m.Q{Coll: "a", Sort: sortBy("n.a", 1)}, &m.Q{Coll: "a", Sort: sortBy("n", 1)})
 }
 
+// alphabetIDForms: the same uuid in lower and in upper case are two different _id strings; each must be kept exactly
+// as supplied by every write path, and found only under its own spelling.
+func alphabetIDForms() []m.Op {
+	up := strings.ToUpper(u3)
+	return []m.Op{
+		ins("a", doc(up, "v", int64(1))), ins("a", doc(u3, "v", int64(2))), ins("a", doc(u1, "v", int64(3)), doc(up, "v", int64(4))),
+		{K: "insertOne", Coll: "a", Docs: []m.Doc{doc(up, "v", int64(5))}},
+		{K: "save", Coll: "a", Docs: []m.Doc{doc(up, "v", int64(6))}},
+		{K: "replaceById", Coll: "a", Id: up, Docs: []m.Doc{doc(up, "v", int64(7))}},
+		{K: "replaceById", Coll: "a", Id: up, Docs: []m.Doc{doc(u3, "v", int64(8))}},
+		updID("a", up, "inplace", "v", int64(9)), updID("a", u3, "copy", "v", int64(10)),
+		{K: "update", Q: qOn("a", m.Leaf("gte", "v", int64(1))), Set: setMap("w", true)},
+		{K: "updateFunc", Q: &m.Q{Coll: "a", Sort: sortBy("v", 1)}, Upd: &m.Updater{Set: setMap("v", int64(0)), Style: "inplace"}},
+		{K: "deleteById", Coll: "a", Id: up}, {K: "deleteById", Coll: "a", Id: u3}, {K: "delete", Q: qOn("a", m.Leaf("eq", "v", int64(0)))},
+		{K: "createIndex", Coll: "a", Field: "v"},
+	}
+}
+
 type critPtr = *m.Crit
 
 func derivedQueries() []*m.Q {
@@ -197,6 +215,7 @@ func ssConfigs(tier string) map[string]*eng.SSConfig {
 		"indexes":     {Name: "indexes", Init: []m.Op{{K: "createColl", Coll: "a"}}, Alphabet: alphabetIndexes(), Raw: true, Audit: drv.AuditOpts{Fields: fieldsC14, Probes: probesIndexes()}, Budget: budget(tier, q, t)},
 		"ids":         {Name: "ids", Init: []m.Op{{K: "createColl", Coll: "a"}, {K: "createColl", Coll: "b"}}, Alphabet: alphabetIDs(), Raw: true, Budget: budget(tier, q, t)},
 		"values":      {Name: "values", Init: []m.Op{{K: "createColl", Coll: "a"}}, Alphabet: alphabetValues(), Audit: drv.AuditOpts{Probes: probesValues()}, Budget: budget(tier, q, t)},
+		"idforms":     {Name: "idforms", Init: []m.Op{{K: "createColl", Coll: "a"}}, Alphabet: alphabetIDForms(), Raw: true, Budget: budget(tier, q, t)},
 		"nested":      {Name: "nested", Init: []m.Op{{K: "createColl", Coll: "a"}}, Alphabet: alphabetNested(), Raw: true, Audit: drv.AuditOpts{Probes: probesNested()}, Budget: budget(tier, q, t)},
 		"derived":     {Name: "derived", Alphabet: alphabetC06(), Derived: derivedQueries(), Budget: budget(tier, q, t)},
 	}
